@@ -31,7 +31,7 @@ RULE = ("seeded mappers: mask up to 8x9 (<=45 unmasked pixels), uniform or per-p
         "Delaunay vertex sets (4..25, minimum separation, hull smaller or larger than the data). A case = one mapper; distinct by "
         "hash of (mask, sub map, source grid, mesh); non-trivial = >= 2 mesh pixels receive flux and some pixel has sub-size > 1 or "
         "interpolates between >= 2 source pixels")
-BOUNDS = {"quick": "160 mappers (80 rectangular, 80 Delaunay), every sub-pixel checked", "thorough": "60000 mappers"}
+BOUNDS = {"quick": "800 mappers (400 rectangular, 400 Delaunay), every sub-pixel checked", "thorough": "60000 mappers"}
 EXHAUSTIVE = {"quick": False, "thorough": False}
 ASSUMPTIONS = ["Voronoi natural-neighbour weights out of scope (external C library absent), as the statement says",
                "points within 1e-9 (relative to the cell / barycentric scale) of a cell or triangle boundary accept either side",
@@ -42,8 +42,8 @@ MIN_MONITORS = {"*": {"sub.rect_cell": 20, "sub.delaunay": 20, "sub.outside_hull
 
 
 def plan(tier, seed):
-    n = 160 if tier == "quick" else 60000
-    step = 5 if tier == "quick" else 100
+    n = 800 if tier == "quick" else 60000
+    step = 10 if tier == "quick" else 100
     return [{"kind": "map", "start": s, "stop": min(n, s + step), "w": step} for s in range(0, n, step)]
 
 
